@@ -1770,6 +1770,12 @@ class Gen:
         self.pathlike = c.random() < 0.3
         self.group_transforms = c.random() < 0.3     # add_group(group_attribs={'transform': ...})
         self.w_ops["doc_group_set"] = c.choice([1, 2]) if self.group_transforms else 0
+        if self.group_transforms:
+            # such a run is ABOUT groups: documents get made, groups get added (mostly nested, mostly with a
+            # transform) and paths go into them - otherwise one run in thirty sees a transformed group at all
+            self.w_ops["doc_new"] = max(1, self.w_ops["doc_new"])
+            self.w_ops["doc_add_group"] = 3
+            self.w_ops["doc_paths_from_group"] = max(1, self.w_ops["doc_paths_from_group"])
 
     def config(self):
         return {"faulting": self.faulting, "bufsize": self.bufsize, "chunk": self.chunk, "readers": self.readers,
@@ -2114,7 +2120,9 @@ class Gen:
             op = {"op": k, "doc": d, "path": p, "attrs": self.attrs(a, p["pid"]),
                   "as": a.choice(["path", "path", "segment", "dstring"])}
             x = a.random()
-            if x < 0.45:
+            if self.group_transforms and dm.elems and x < 0.6:
+                op["group"] = {"elem": list(a.choice(sorted(dm.elems)))}
+            elif x < 0.45:
                 op["group"] = None
             elif x < 0.55:
                 op["group"] = {"str": a.choice(["sgrp1", "sgrp2", "layer"])}
@@ -2127,7 +2135,7 @@ class Gen:
             return op
         if k == "doc_add_group":
             parent = None
-            if dm.elems and a.random() < 0.5:
+            if dm.elems and a.random() < (0.7 if self.group_transforms else 0.5):
                 parent = list(a.choice(sorted(dm.elems)))
             nm = "n%d" % a.randint(1, 6)
             if dm.tree.find_group((parent or []) + [nm]) is not None:
@@ -2139,7 +2147,7 @@ class Gen:
                 at["style"] = a.choice(STYLE_VALS)       # a container's style must not leak into its paths
             if a.random() < 0.2:
                 at["fill"] = a.choice(VAL_SIMPLE)
-            if self.group_transforms and a.random() < 0.6:
+            if self.group_transforms and a.random() < 0.8:
                 at["transform"] = a.choice(sorted(GROUP_TRANSFORMS))
             return {"op": k, "doc": d, "attrs": at, "parent": parent}
         if k == "doc_get_or_add_group":
